@@ -17,13 +17,21 @@ def configs(tier, seed):
                     continue          # the callable branch is covered up to n = 4; n = 5 runs the matrix branch
                 cfgs.append(dict(n=n, K=K, part=list(part), branch=branch, weight=10 ** n, deadline_s=5400,
                                  wstride=7 if n <= 3 else (97 if n == 4 else 4001)))
+    # the training samples stand for permuted rows of a larger table (Node.idx != position)
+    for n, K, ids in ([(3, 2, [3, 0, 2]), (3, 3, [1, 4, 0])] if tier == "quick" else
+                      [(3, 2, [3, 0, 2]), (3, 3, [1, 4, 0]), (4, 2, [2, 5, 0, 3]), (4, 3, [4, 1, 3, 0])]):
+        for part in sup.partitions(n, 2, K):
+            for branch in ("pre", "fn"):
+                cfgs.append(dict(n=n, K=K, part=list(part), branch=branch, ids=ids, weight=10 ** n,
+                                 wstride=7 if n <= 3 else 97))
     return cfgs
 
 
 def describe(v, tier):
     v.bounds = dict(n_training_samples="2..4 (quick) / 2..5 (thorough)", classes="<=3 (quick) / <=4, n=5: 2 (thorough)",
                     label_patterns="every set partition with >= 2 blocks, label values symbolic in [0,K)",
-                    weight_branches=["pre_computed_distance matrix", "distance_fn callable"])
+                    weight_branches=["pre_computed_distance matrix", "distance_fn callable"],
+                    identifiers="positions 0..n-1, and (n=3 quick / n<=4 thorough) permuted rows of a larger table (I_train != arange)")
     v.assumptions = ["0 <= W[i][j] < sys.float_info.max, W symmetric, diagonal unconstrained",
                      "weights are mathematical reals (exact: fit only compares, takes max and copies)",
                      "features carry only sample identity; the metric is an arbitrary table W"]
